@@ -171,12 +171,15 @@ def build_pool():
     P["tcirc2"] = adapt.circuit(tdesc2)      # twin of tcirc: same ids and nodes, capacitor and inductor exchanged
     tdesc3 = {"components": [[c[0], c[1], list(c[2]), ({"C": "1/3"} if c[1] == "C1" else {"L": "1/7"} if c[1] == "L1" else dict(c[3]))] for c in tdesc["components"]]}
     P["tcirc3"] = adapt.circuit(tdesc3)      # twin of tcirc: everything equal except the capacitance and the inductance
+    tdesc4 = {"components": [list(c) for c in tdesc["components"][:-1]] + [["ground", "gnd", ["3"], {}]]}
+    P["tcirc4"] = adapt.circuit(tdesc4)      # twin of tcirc: the same components, ground symbol on another node
+    P["netD3"] = Network(list(P["netD"].branches), node_zero_label="3")     # twin of netD: same branches, other reference node
     P["w_list"] = [0.0, 2.0, 0.5]
     P["w_arr"] = np.array([0.0, 2.0, 0.5])
     P["nodes"] = ["1", "2", "3"]
     P["ids"] = ["R1", "C1", "L1", "Vs"]
-    P["tin"] = np.linspace(0, 2, 41)
-    P["inputs"] = {"Vs": (lambda t: np.where(np.asarray(t) > 0.5, 1.0, 0.0)), "Is": (lambda t: 0.5 * np.asarray(t))}
+    P["tin"] = np.linspace(0.25, 2.25, 41)      # a float array that does not start at 0, shared by every transient analysis
+    P["inputs"] = {"Vs": (lambda t: np.where(np.asarray(t) > 0.75, 1.0, 0.0)), "Is": (lambda t: 0.5 * (np.asarray(t) - 0.25))}
     P["ndesc"] = [{"type": "voltage_source", "id": "Vs", "N1": "1", "N2": "0", "V": {"abs": 2.0, "phase": 30.0}},
                   {"type": "impedance", "id": "Z1", "N1": "1", "N2": "2", "Z": {"real": 1.0, "imag": 2.0}},
                   {"type": "admittance", "id": "Y1", "N1": "2", "N2": "0", "Y": {"abs": 0.5, "phase": 0.1}},
@@ -296,6 +299,8 @@ def alphabet():
     A["ssm_zero_inductance"] = lambda P: ssm_dump(nodal_state_space_model(P["netD"], c_values=P["c_values"], l_values={"L": 0.0}))
     A["short_circuit_current_ideal_port"] = lambda P: [canon(bpa.short_circuit_current(P["netK1"], "1", "0")), canon(bpa.short_circuit_current(P["netVa"], "2", "0"))]
     A["impedance_across_ideal_source"] = lambda P: [canon(na.open_circuit_impedance(P["netK1"], "1", "0")), canon(na.element_impedance(P["netK2"], "y"))]
+    A["circuit_ssm_twin_ground"] = lambda P: [canon(getattr(cssm.state_space_model(P["tcirc4"], potential_nodes=["0", "1", "2"], voltage_ids=P["ids"], current_ids=P["ids"]), k)) for k in "ABCD"]
+    A["nodal_ssm_twin_reference"] = lambda P: ssm_dump(nodal_state_space_model(P["netD3"], c_values=P["c_values"], l_values=P["l_values"]))
     A["circuit_ssm_twin_values"] = lambda P: [canon(getattr(cssm.state_space_model(P["tcirc3"], potential_nodes=P["nodes"], voltage_ids=P["ids"], current_ids=P["ids"]), k)) for k in "ABCD"]
     A["impedance_sweep"] = lambda P: [canon(cimp.open_circuit_impedance(P["tcirc"], "2", "0", w=P["w_arr"])), canon(cimp.element_impedance(P["tcirc"], "R1", w=P["w_arr"]))]
     A["impedance_sweep_default"] = lambda P: [canon(cimp.open_circuit_impedance(P["tcirc"], "2", "0")), canon(cimp.element_impedance(P["tcirc"], "R1")), canon(cimp.open_circuit_dc_resistance(P["tcirc"], "3", "0")),
